@@ -29,6 +29,16 @@ vb_overlay_begin() {
 }
 vb_overlay_add() { _OV_ENTRIES+=("\"$VERIF_REPO/$1\": \"$2\""); }
 vb_overlay_end() {
+  # VERIF_EXTRA_OVERLAY="rel/path/in/repo=/abs/replacement;rel2=/abs2": extra Replace entries, used ONLY to try a
+  # deliberate property-breaking change (or a candidate fix) against a check without touching /repo. Unset in normal use.
+  if [ -n "${VERIF_EXTRA_OVERLAY:-}" ]; then
+    local pair
+    local IFS=';'
+    for pair in $VERIF_EXTRA_OVERLAY; do
+      [ -n "$pair" ] && _OV_ENTRIES+=("\"$VERIF_REPO/${pair%%=*}\": \"${pair#*=}\"")
+    done
+    echo "NOTE: building with VERIF_EXTRA_OVERLAY=$VERIF_EXTRA_OVERLAY" >&2
+  fi
   local IFS=,
   printf '{"Replace": {%s}}\n' "${_OV_ENTRIES[*]}" > "$VERIF_SCRATCH/overlay.json"
 }
@@ -43,4 +53,10 @@ vb_test_bin() {
 vb_run_harness() {
   local bin="$1" name="$2"; shift 2
   (cd "$VERIF_SCRATCH" && "$bin" -test.run "^${name}\$" -test.timeout 0 -test.v=false "$@")
+}
+
+# vb_build_bin <pkg-relative-to-repo> <out>: go build of a repo command (e.g. cmd/tl2gen) with the overlay.
+vb_build_bin() {
+  (cd "$VERIF_REPO" && go build -overlay "$VERIF_SCRATCH/overlay.json" -o "$2" "./$1") || {
+    echo "HARNESS-ERROR: build of $1 failed" >&2; return 2; }
 }
